@@ -172,7 +172,7 @@ func checkReader(t *target, in []byte, ci int) (fs []finding) {
 	switch {
 	case err == nil && !wantOK:
 		reason := t.schema.Accept(in)
-		add("C08:reader:accept-invalid:"+sigReason(reason, t.class), fmt.Sprintf("%s decoded into *%s through [%v] is accepted as %s; DecodeBytes: %v (reference: %s)", short(in), t.name, c, render(ptr), errB, reason))
+		add("C08:reader:accept-invalid:"+reason, fmt.Sprintf("%s decoded into *%s through [%v] is accepted as %s; DecodeBytes: %v (reference: %s)", short(in), t.name, c, render(ptr), errB, reason))
 	case err != nil && wantOK:
 		add("C08:reader:reject-valid:"+errSlug(err), fmt.Sprintf("%s decoded into *%s through [%v] is rejected: %v; DecodeBytes gives %s (err=%v)", short(in), t.name, c, err, render(fresh), errB))
 	case err == nil:
